@@ -146,7 +146,8 @@ type fleetExec struct {
 	// lastChmap describes the most recent successful ChangeMapping (for the hooks).
 	lastChmap *chmapInfo
 	// reusedBuilder is the streaming protobuf builder re-used across serialisations of a run (C09).
-	reusedBuilder *sketchpb.DDSketchBuilder
+	reusedBuilder    *sketchpb.DDSketchBuilder
+	reusedMapBuilder *sketchpb.IndexMappingBuilder
 	// disk holds the checkpoints of each node (C08), oldest first.
 	disk map[int][]*checkpoint
 }
